@@ -173,6 +173,12 @@ impl Prop for C12 {
         if rng.random_bool(0.2) {
             alpha.push("c");
         }
+        if rng.random_bool(0.15) {
+            // any code point of the whole-code-space sample (combining marks, joiners, 4-byte
+            // characters, Hangul jamo ...): in grapheme mode it may merge with its neighbours
+            let t = gen::scalars();
+            alpha.push(t[rng.random_range(0..t.len())].as_str());
+        }
         if rng.random_bool(0.1) {
             alpha.retain(|c| *c != "b");
         }
